@@ -28,7 +28,7 @@ ANCHORS = ['pycaption.scc:SCCReader._translate_line', 'pycaption.scc:SCCReader._
 THOROUGH_SCALE = 2.5        # random budgets of the thorough tier are multiplied by this
 REQUIRE = {'programs_single': 50, 'programs_doubled': 50, 'captions_compared': 500,
            'captions_multi_row': 50, 'captions_split_by_gap': 20, 'items_ext': 50, 'items_sp': 50,
-           'items_bs': 20, 'items_mid': 50, 'italic_chars_expected': 100, 'decoder_states_seen': 20}
+           'items_bs': 20, 'items_mid': 50, 'mid_char_probes': 200, 'italic_chars_expected': 100, 'decoder_states_seen': 20}
 EXHAUSTIVE = {'quick': False, 'thorough': False}
 
 ABSTRACT_ITEMS = [['c', 'a'], ['c', 'B'], ['c', ' '], ['c', '.'], ['sp', 7], ['sp', 0], ['ext', 'É'],
@@ -90,6 +90,14 @@ def cases(ctx):
             if ctx.mine(idx):
                 yield {'kind': 'char', 'prog': _prog([[_simple_row(5, 4, 0, [['c', 'x'], ['ext', ch], ['c', 'y']])]], doubled)}
             idx += 1
+        # a mid-row code between two basic characters is one blank cell, for every basic character after it
+        for code in sorted(E.BASIC):
+            if code in (0x7f,):
+                continue
+            for mid in (0, 14, 15):
+                if ctx.mine(idx):
+                    yield {'kind': 'mid-char', 'prog': _prog([[_simple_row(5, 4, 0, [['c', 'x'], ['mid', mid], ['c', E.BASIC[code]], ['c', 'y']])]], doubled)}
+                idx += 1
         for a in range(1, 16):
             for b in range(1, 16):
                 if ctx.mine(idx):
@@ -181,7 +189,7 @@ def got_lines(caption):
     return lines, problems
 
 
-def match_line(exp, got):
+def match_line(exp, got, strict=False):
     """exp: [(ch, italic, optional)], got: [(ch, italic)].  Visible characters and their italic flag
     must match in order; between two visible characters the number of blanks must lie between the
     number of real blanks and real + optional (mid-row cells); trailing blanks are ignored; leading
@@ -203,10 +211,17 @@ def match_line(exp, got):
     te, tg = tokens(exp, True), tokens(got, False)
     if len(te) != len(tg):
         return False
-    for (er, eo, ech, eit), (gr, _go, gch, git) in zip(te, tg):
+    for k, ((er, eo, ech, eit), (gr, _go, gch, git)) in enumerate(zip(te, tg)):
         if ech != gch or eit != git:
             return False
         if not er <= gr <= er + eo:
+            return False
+        # 'mid-char' probes (basic char, mid-row code, basic char): the mid-row code is a blank cell on the
+        # screen; the reader leaves it out only in front of . ! ? , (pinned by the repository's tests), so
+        # in front of every other basic character one blank must separate the two characters.  Not applied to
+        # other programs: before special / extended characters (whose stand-in may be punctuation) and after
+        # italic toggles the unchanged tree legitimately has no blank.
+        if strict and k > 0 and er == 0 and eo >= 1 and gr == 0 and ech not in '.!?,':
             return False
     return True
 
@@ -252,6 +267,9 @@ def check(case, ctx):
             if len({(m.start, m.end) for m in members}) != 1:
                 fails.append({'what': 'captions of one screen (non-adjacent rows) do not share their times',
                               'got': [(m.start, m.end) for m in members]})
+    strict = case.get('kind') == 'mid-char'
+    if strict:
+        ctx.count('mid_char_probes')
     for i, (c, e) in enumerate(zip(caps, exp)):
         ctx.count('captions_compared')
         if len(e['lines']) > 1:
@@ -260,7 +278,7 @@ def check(case, ctx):
         glines, problems = got_lines(c)
         for p in problems:
             fails.append({'what': 'style nodes unbalanced: ' + p, 'caption': i, 'doc': doc})
-        ok = len(glines) == len(e['lines']) and all(match_line(a, b) for a, b in zip(e['lines'], glines))
+        ok = len(glines) == len(e['lines']) and all(match_line(a, b, strict) for a, b in zip(e['lines'], glines))
         if not ok:
             only_leading_break = (len(glines) == len(e['lines']) + 1 and glines[0] == []
                                   and all(match_line(a, b) for a, b in zip(e['lines'], glines[1:])))
